@@ -320,8 +320,8 @@ def envFlag (name : String) (dflt : Bool) : IO Bool := do
 def main : IO Unit := do
   let rc : RunCfg := {
     cc := { regexOk := fun _ => true,
-            shortcutNeedsNodeTest := ← envFlag "XV_SHORTCUT_NODETEST" true,
-            smartDescThroughFilter := ← envFlag "XV_SMARTDESC_THROUGH_FILTER" false },
+            shortcutNeedsNodeTest := ← envFlag "XV_SHORTCUT_NODETEST" shortcutNeedsNodeTestFromSource,
+            smartDescThroughFilter := ← envFlag "XV_SMARTDESC_THROUGH_FILTER" smartDescThroughFilterFromSource },
     keySep := ← envFlag "XV_KEYSEP" true,
     setSemantics := ← envFlag "XV_SET_SEMANTICS" false }
   loop rc (← IO.getStdin) (← IO.getStdout)
